@@ -20,7 +20,8 @@ func verifExchange(cl *dns.Client, ctx context.Context, msg *dns.Msg, server str
 }
 
 // VerifNewExtResolver builds an ExtResolver that asks the given server
-// address (a loopback address makes its AD flags trusted).
-func VerifNewExtResolver(server string) *ExtResolver {
-	return &ExtResolver{cl: new(dns.Client), Cfg: &dns.ClientConfig{Servers: []string{server}, Port: "53"}}
+// addresses in turn (the AD flag of an answer is trusted only if the server
+// that gave it is a loopback address).
+func VerifNewExtResolver(servers ...string) *ExtResolver {
+	return &ExtResolver{cl: new(dns.Client), Cfg: &dns.ClientConfig{Servers: servers, Port: "53"}}
 }
